@@ -8,7 +8,9 @@ from vf.core import Part, Violation, call
 from vf.props import common
 
 PROPERTY = "C06"
-RULE = ("Part 'partial': Hypothesis generates validated model DAG specs (pre-fixed nodes / constant leaves allowed) x partial "
+RULE = ("Parts 'flag_shapes*' / 'partial_shapes*': EXHAUSTIVE enumeration of every single threshold node (all values/signs, a boolean and "
+        "an integer leaf with negative lower bound) alone and inside every connective, for the flags and under four partial "
+        "interpretations of the integer leaf. Part 'partial': Hypothesis generates validated model DAG specs (pre-fixed nodes / constant leaves allowed) x partial "
         "interpretations (each leaf independently absent / int / sub-range as tuple / sub-range as Bounds) x ALL completions "
         "of the open leaves (enumerated up to 3000 points, else all corners of the open box + drawn points folded into it). "
         "Oracle: for every id reported by evaluate_propositions, lower <= reference arithmetic value <= upper for every "
@@ -164,8 +166,24 @@ def check_flags(case, ev):
     ev.case(case, flagged, cl)
 
 
+def shapes(slice_i, n):
+    for spec in S.small_shapes(slice_i, n):
+        yield {"model": spec}
+
+
+def shapes_partial(slice_i, n):
+    """every small shape under the three most telling partial interpretations: nothing given, the integer leaf as a
+    sub-range, the integer leaf as a constant"""
+    for spec in S.small_shapes(slice_i, n):
+        ids = sorted(oracle.spec_leaves(spec))
+        for t_entry in ([0, 0, 0], [2, -1, 1], [3, 0, 2], [1, -2, 0]):
+            pi = [t_entry if i == "t" else [0, 0, 0] for i in ids]
+            yield {"model": spec, "pi": pi, "extra": []}
+
+
 def parts(tier):
-    return [
+    return [Part("flag_shapes%d" % i, enumerate_cases=(lambda t, i=i: shapes(i, 2)), check=check_flags, time_quick=120.0) for i in range(2)] + \
+           [Part("partial_shapes%d" % i, enumerate_cases=(lambda t, i=i: shapes_partial(i, 4)), check=check_partial, time_quick=120.0) for i in range(4)] + [
         Part("partial", strategy=lambda t: partial_case(t), check=check_partial, quick=(6, 350), thorough=(12, 2500)),
         Part("flags", strategy=lambda t: S.model_spec(depth=3, allow_fix=True, allow_const_leaves=True,
                                                       profile="large").map(lambda s: {"model": s}),
